@@ -160,12 +160,61 @@ def sp_iff(I, st, args, kwargs):
     return VBool(I.truth(args[0], st) == I.truth(args[1], st))
 
 
+_CNT_BY_SORT = {}
+
+
+def cnt_fn(ek):
+    """cnt over sequences of any element kind: one function + defining axioms + bounds lemmas per sort."""
+    from .sym import sort_of, kind_name
+    if ek == 'int':
+        return CNT
+    if ek in _CNT_BY_SORT:
+        return _CNT_BY_SORT[ek]
+    es = sort_of(ek)
+    nm = 'cnt_' + kind_name(ek)
+    arr = z3.ArraySort(I_, es)
+    F = z3.Function(nm, arr, es, I_, I_)
+    A = z3.Const('A_' + nm, arr)
+    v = z3.Const('v_' + nm, es)
+    axiom(nm + '.base', z3.ForAll([A, v], F(A, v, 0) == 0, patterns=[F(A, v, 0)]), nm)
+    axiom(nm + '.step', z3.ForAll([A, v, _m], z3.Implies(_m > 0, F(A, v, _m) == F(A, v, _m - 1) + z3.If(A[_m - 1] == v, 1, 0)),
+                                  patterns=[F(A, v, _m)]), nm)
+    lemma(nm + '_bounds',
+          z3.ForAll([A, v, _m], z3.Implies(_m >= 0, z3.And(F(A, v, _m) >= 0, F(A, v, _m) <= _m)), patterns=[F(A, v, _m)]),
+          [(lab, z3.ForAll([A, v], f)) for lab, f in _induction(lambda n: z3.And(F(A, v, n) >= 0, F(A, v, n) <= n), _n)])
+    lemma(nm + '_absent',
+          z3.ForAll([A, v, _m], z3.Implies(
+              z3.And(_m >= 0, z3.ForAll([_i], z3.Implies(z3.And(_i >= 0, _i < _m), A[_i] != v))), F(A, v, _m) == 0),
+              patterns=[F(A, v, _m)]),
+          [(lab, z3.ForAll([A, v], f)) for lab, f in _induction(
+              lambda n: z3.Implies(z3.ForAll([_i], z3.Implies(z3.And(_i >= 0, _i < n), A[_i] != v)), F(A, v, n) == 0), _n)])
+    lemma(nm + '_present',
+          z3.ForAll([A, v, _m, _i], z3.Implies(z3.And(_i >= 0, _i < _m, A[_i] == v), F(A, v, _m) >= 1),
+                    patterns=[z3.MultiPattern(F(A, v, _m), A[_i])]),
+          [(lab, z3.ForAll([A, v], f)) for lab, f in _induction(
+              lambda n: z3.ForAll([_i], z3.Implies(z3.And(_i >= 0, _i < n, A[_i] == v), F(A, v, n) >= 1)), _n)],
+          uses=[nm + '_bounds'])
+    lemma(nm + '_distinct',
+          # in a duplicate-free sequence every value occurs at most once
+          z3.ForAll([A, v, _m], z3.Implies(
+              z3.And(_m >= 0, z3.ForAll([_i, _j], z3.Implies(z3.And(0 <= _i, _i < _j, _j < _m), A[_i] != A[_j]))),
+              F(A, v, _m) <= 1), patterns=[F(A, v, _m)]),
+          [(lab, z3.ForAll([A, v], f)) for lab, f in _induction(
+              lambda n: z3.Implies(z3.ForAll([_i, _j], z3.Implies(z3.And(0 <= _i, _i < _j, _j < n), A[_i] != A[_j])),
+                                   F(A, v, n) <= 1), _n)],
+          uses=[nm + '_bounds', nm + '_absent'])
+    _CNT_BY_SORT[ek] = F
+    return F
+
+
 @spec('cnt')
 def sp_cnt(I, st, args, kwargs):
     a, v, m = args
-    if not isinstance(a, VSeq) or a.ek != 'int':
-        raise EngineError('cnt(A, v, m): A must be an int sequence')
-    return VInt(CNT(a.arr, to_term(v, 'int'), to_term(m, 'int')))
+    if not isinstance(a, VSeq):
+        raise EngineError('cnt(A, v, m): A must be a sequence')
+    if a.arr is None:
+        return VInt(0)
+    return VInt(cnt_fn(a.ek)(a.arr, to_term(v, a.ek), to_term(m, 'int')))
 
 
 @spec('cntT')
